@@ -124,10 +124,20 @@ func sroaCandidates(pkgs []*packages.Package, baseTypes map[string]bool, skip ma
 			}
 			// keyed literal (or empty)
 			if lit != nil {
+				// keyed, or positional with every field given
+				keyed, positional := 0, 0
 				for _, el := range lit.Elts {
-					if _, isKV := el.(*ast.KeyValueExpr); !isKV {
-						return true
+					if _, isKV := el.(*ast.KeyValueExpr); isKV {
+						keyed++
+					} else {
+						positional++
 					}
+				}
+				if keyed > 0 && positional > 0 {
+					return true
+				}
+				if positional > 0 && positional != st.NumFields() {
+					return true
 				}
 			}
 			// every other occurrence is v.f with f a direct field
@@ -229,7 +239,78 @@ func sroaStep(v sroaVar, content []byte) ([]byte, string, error) {
 			}
 		}
 	}
+	// a field that is set from a plain local / parameter that never changes, and is itself never assigned, is that
+	// variable under another name: its uses are replaced by the variable (no new declaration)
+	alias := map[string]string{}
+	{
+		assigned := map[string]bool{}
+		ast.Inspect(v.encl, func(n ast.Node) bool {
+			switch x := n.(type) {
+			case *ast.AssignStmt:
+				for _, l := range x.Lhs {
+					if sel, ok := ast.Unparen(l).(*ast.SelectorExpr); ok {
+						for _, u := range v.uses {
+							if u == sel {
+								assigned[sel.Sel.Name] = true
+							}
+						}
+					}
+				}
+			case *ast.IncDecStmt:
+				if sel, ok := ast.Unparen(x.X).(*ast.SelectorExpr); ok {
+					for _, u := range v.uses {
+						if u == sel {
+							assigned[sel.Sel.Name] = true
+						}
+					}
+				}
+			case *ast.UnaryExpr:
+				if x.Op == token.AND {
+					if sel, ok := ast.Unparen(x.X).(*ast.SelectorExpr); ok {
+						for _, u := range v.uses {
+							if u == sel {
+								assigned[sel.Sel.Name] = true
+							}
+						}
+					}
+				}
+			}
+			return true
+		})
+		for i, el := range elts {
+			var fname string
+			var val ast.Expr
+			if kv, isKV := el.(*ast.KeyValueExpr); isKV {
+				if k, ok := kv.Key.(*ast.Ident); ok {
+					fname, val = k.Name, kv.Value
+				}
+			} else {
+				fname, val = v.st.Field(i).Name(), el
+			}
+			id, ok := val.(*ast.Ident)
+			if !ok || fname == "" || assigned[fname] {
+				continue
+			}
+			obj, ok := v.pkg.TypesInfo.Uses[id].(*types.Var)
+			if !ok || obj.IsField() || obj.Parent() == nil || obj.Parent() == v.pkg.Types.Scope() {
+				continue
+			}
+			var ft types.Type
+			for j := 0; j < v.st.NumFields(); j++ {
+				if v.st.Field(j).Name() == fname {
+					ft = v.st.Field(j).Type()
+				}
+			}
+			if ft == nil || !types.Identical(ft, obj.Type()) || !neverReassigned(v.pkg.TypesInfo, v.encl, obj) {
+				continue
+			}
+			alias[fname] = id.Name
+		}
+	}
 	name := func(f string) string {
+		if a, ok := alias[f]; ok {
+			return a
+		}
 		if free[f] {
 			return f
 		}
@@ -237,8 +318,14 @@ func sroaStep(v sroaVar, content []byte) ([]byte, string, error) {
 	}
 	given := map[string]ast.Expr{}
 	var order []string
-	for _, el := range elts {
-		kv := el.(*ast.KeyValueExpr)
+	for i, el := range elts {
+		kv, isKV := el.(*ast.KeyValueExpr)
+		if !isKV {
+			f := v.st.Field(i).Name()
+			given[f] = el
+			order = append(order, f)
+			continue
+		}
 		k, ok := kv.Key.(*ast.Ident)
 		if !ok {
 			return nil, "", fmt.Errorf("literal key is not a field name")
@@ -257,6 +344,9 @@ func sroaStep(v sroaVar, content []byte) ([]byte, string, error) {
 		}
 		if ft == nil {
 			return nil, "", fmt.Errorf("unknown field %s", f)
+		}
+		if _, isAlias := alias[f]; isAlias {
+			continue
 		}
 		ts := types.TypeString(ft, qual)
 		fmt.Fprintf(&b, "var %s %s = %s\n_ = %s\n", name(f), ts, src(given[f]), name(f))
